@@ -398,7 +398,8 @@ func (e *Engine) dischargePath(fn *ssa.Function, po *pathOutcome, pathNo int, w 
 				r.Note += " write-set separation obligation (engine-only: a written object is shared between the two parties; natively this is a potential data race, not a reproducible failure)"
 			} else if ob.Kind == "lemma" {
 				r.Model = full.Model
-				r.Note += " stage lemma refuted by the solver (engine-only obligation; confirmation is attempted through the end-to-end fallback harnesses)"
+				r.Note += " stage lemma refuted by the solver (engine-only obligation)"
+				e.confirmBySearch(fn, x, ob, r, opts)
 			} else if full.Result == "sat" {
 				r.Model = full.Model
 				e.confirmNatively(fn, x, ob, r, opts)
@@ -436,6 +437,39 @@ type NativeResult struct {
 	Observed     map[string]string `json:"observed"`
 	Crashed      bool              `json:"crashed"`
 	Output       string            `json:"output,omitempty"`
+}
+
+// confirmBySearch looks for an end-to-end witness of a refuted engine-only lemma: the harness's registered native
+// search (vSearch) runs the real code on a deterministic battery of inputs.
+func (e *Engine) confirmBySearch(fn *ssa.Function, x *Exec, ob *Obligation, r *OblResult, opts *RunOptions) {
+	if opts.SelfExe == "" || opts.ReplayDir == "" {
+		return
+	}
+	found := false
+	for p := range x.searches {
+		if strings.HasPrefix(ob.ID, p+"-") {
+			found = true
+		}
+	}
+	if !found {
+		r.Note += "; no native witness search registered for it"
+		return
+	}
+	rf := ReplayFile{Package: fn.Pkg.Pkg.Path(), Harness: fn.Name(), Obligation: ob.ID, Kind: "search", Where: ob.Where,
+		Inputs: map[string]string{"@search": ob.ID, "@seed": "88172645463325252"},
+		Note:   "deterministic native witness search for a lemma refuted by the solver; stage-level model: " + fmt.Sprint(r.Model)}
+	os.MkdirAll(opts.ReplayDir, 0o755)
+	path := filepath.Join(opts.ReplayDir, fmt.Sprintf("%s_%s_search.json", fn.Name(), sanitize(ob.ID)))
+	b, _ := json.MarshalIndent(rf, "", " ")
+	os.WriteFile(path, b, 0o644)
+	nr := RunNativeReplay(opts.SelfExe, path, 300*time.Second)
+	if contains(nr.Failed, ob.ID) {
+		r.Verdict = "violated"
+		r.Replay = path
+		r.Note += fmt.Sprintf("; native witness found by the registered search: %v", nr.Observed)
+	} else {
+		r.Note += "; the native witness search found no end-to-end witness" + firstLine(nr.Panic)
+	}
 }
 
 func (e *Engine) confirmNatively(fn *ssa.Function, x *Exec, ob *Obligation, r *OblResult, opts *RunOptions) {
